@@ -129,8 +129,13 @@ func normErr(s string) string {
 			return "isn't Bindings:scalar"
 		}
 		return "isn't Bindings:array"
-	case strings.HasPrefix(s, "json: unsupported type: func("), strings.HasPrefix(s, "json: unsupported value: encountered a cycle"), strings.HasPrefix(s, "json: unsupported value: NaN"):
-		return "json: unsupported"
+	// the three ways a value fails to serialise stay apart: a pattern may bind one text and meet another
+	case strings.HasPrefix(s, "json: unsupported type: func("):
+		return "json: unsupported:type"
+	case strings.HasPrefix(s, "json: unsupported value: encountered a cycle"):
+		return "json: unsupported:cycle"
+	case strings.HasPrefix(s, "json: unsupported value: NaN"):
+		return "json: unsupported:nan"
 	}
 	if i := strings.Index(s, " at <eval>"); i >= 0 {
 		return s[:i]
@@ -318,6 +323,9 @@ func nativeAction(p *gen.Prog) *core.FuncAction {
 			case "loop":
 				return fail("RuntimeError: timeout")
 			case "emitBad":
+				if len(op) > 1 && op[1] == "cycle" {
+					return fail("json: unsupported value: encountered a cycle via map[string]interface {}")
+				}
 				return fail("json: unsupported type: func(goja.FunctionCall) goja.Value")
 			}
 		}
